@@ -901,6 +901,23 @@ func (env *Env) havocLocation(st *State, m spec.Expr) {
 			}
 			return
 		}
+		if ok && id.Name == "MapOf" && len(m.Args) == 1 {
+			// the contents (key set and values) of a Go map
+			v := env.eval(m.Args[0])
+			mt, isMap := types.Unalias(v.T).Underlying().(*types.Map)
+			if !isMap {
+				specErr("MapOf() of non-map")
+			}
+			hk, ks, vls, vp := env.x.mapKeys(mt)
+			arr := en.heapArr(st, hk, smt.Ref, smt.ArrayOf(ks, smt.Bool))
+			en.setHeapArr(st, hk, smt.Store(arr, v.one(), en.ctx.Fresh("hvmaphas", smt.ArrayOf(ks, smt.Bool))))
+			for _, l := range vls {
+				key := vp + l.Path
+				va := en.heapArr(st, key, smt.Ref, smt.ArrayOf(ks, l.Sort))
+				en.setHeapArr(st, key, smt.Store(va, v.one(), en.ctx.Fresh("hvmapval", smt.ArrayOf(ks, l.Sort))))
+			}
+			return
+		}
 		if ok && id.Name == "deref" && len(m.Args) == 1 {
 			v := env.eval(m.Args[0])
 			p := env.x.ptrOf(v)
